@@ -415,8 +415,12 @@ void MatrixAppendCol(matrix* m, dvector *col)
           m->data[i][j] = +0.f;
     }
     else{
+      /* the column can be shorter than the matrix: fill the remaining rows with 0 */
       for(i = 0; i < rowsize; i++){
-        m->data[i][lastcol] = col->data[i];
+        if(i < col->size)
+          m->data[i][lastcol] = col->data[i];
+        else
+          m->data[i][lastcol] = +0.f;
       }
     }
   }
@@ -545,8 +549,12 @@ void MatrixAppendUICol(matrix* m, uivector *col)
           m->data[i][j] = +0.f;
     }
     else{
+      /* the column can be shorter than the matrix: fill the remaining rows with 0 */
       for(i = 0; i < rowsize; i++){
-        m->data[i][lastcol] = col->data[i];
+        if(i < col->size)
+          m->data[i][lastcol] = col->data[i];
+        else
+          m->data[i][lastcol] = +0.f;
       }
     }
   }
